@@ -5,9 +5,15 @@ define_histogram!(h2, 2);
 define_histogram!(h3, 3);
 define_histogram!(h4, 4);
 define_histogram!(h5, 5);
+define_histogram!(h20, 20);
+define_histogram!(h33, 33);
+define_histogram!(h100, 100);
 pub use average::Histogram10 as H10;
 pub type H1 = h1::Histogram;
 pub type H2 = h2::Histogram;
 pub type H3 = h3::Histogram;
 pub type H4 = h4::Histogram;
 pub type H5 = h5::Histogram;
+pub type H20 = h20::Histogram;
+pub type H33 = h33::Histogram;
+pub type H100 = h100::Histogram;
